@@ -229,6 +229,7 @@ func writeStateTokenBatch(w *ipc.Writer, schema *arrow.Schema, token []byte, cal
 
 // writeErrorBatch writes a zero-row batch with EXCEPTION-level metadata.
 func writeErrorBatch(w *ipc.Writer, schema *arrow.Schema, err error, serverID, requestID string, debug bool) error {
+	err = reportableError(err)
 	extraJSON := buildErrorExtra(err, debug)
 
 	keys := []string{MetaLogLevel, MetaLogMessage, MetaLogExtra}
